@@ -23,7 +23,7 @@ import stat as _stat
 
 _FT = type(lambda: 0)
 
-MUTATING = ("mkdir", "create", "open-w", "open-a", "open-r+", "write", "truncate", "rename", "remove", "chmod", "flock")
+MUTATING = ("mkdir", "rmdir", "create", "open-w", "open-a", "open-r+", "write", "truncate", "rename", "remove", "chmod", "flock")
 OPENING = ("open-r",)
 
 
@@ -94,6 +94,9 @@ class ModelBackend:
     def mkdir1(self, p):
         self.dirs[p] = True
 
+    def rmdir1(self, p):
+        self.dirs.pop(p, None)
+
     def create(self, p, data=b""):
         self.files[p] = Ent(True, data)
 
@@ -147,6 +150,9 @@ class RealBackend:
 
     def mkdir1(self, p):
         _os.mkdir(self._r(p))
+
+    def rmdir1(self, p):
+        _os.rmdir(self._r(p))
 
     def create(self, p, data=b""):
         with open(self._r(p), "wb") as f:
@@ -300,6 +306,28 @@ class FS:
         if self.b.isdir(dst):
             raise IsADirectoryError(errno.EISDIR, "Is a directory", dst)
         self.b.rename(src, dst)
+
+    def rmdir(self, path):
+        path = self.p(path)
+        self.tick("rmdir", path)
+        if not self.b.isdir(path):
+            if self.b.isfile(path):
+                raise NotADirectoryError(errno.ENOTDIR, "Not a directory", path)
+            raise FileNotFoundError(errno.ENOENT, "No such file or directory", path)
+        if self.b.listdir(path):
+            raise OSError(errno.ENOTEMPTY, "Directory not empty", path)
+        self.b.rmdir1(path)
+
+    def removedirs(self, path):
+        path = self.p(path)
+        self.rmdir(path)
+        head = posixpath.dirname(path)
+        while head and head != "/":
+            try:
+                self.rmdir(head)
+            except OSError:
+                break
+            head = posixpath.dirname(head)
 
     def listdir(self, path):
         path = self.p(path)
@@ -662,7 +690,7 @@ class Shim:
         self.os = types.SimpleNamespace(
             path=self.path, fspath=_os.fspath, PathLike=_os.PathLike, sep="/", linesep="\n",
             makedirs=d("makedirs"), remove=d("remove"), unlink=d("remove"), rename=d("rename"),
-            replace=d("rename"), listdir=d("listdir"), stat=_stat_fn, chmod=d("chmod"), umask=lambda m: 0o22,
+            replace=d("rename"), rmdir=d("rmdir"), removedirs=d("removedirs"), listdir=d("listdir"), stat=_stat_fn, chmod=d("chmod"), umask=lambda m: 0o22,
             getenv=lambda k, dflt=None: H.fs.env.get(k, dflt), walk=_walk, getcwd=lambda: "/", environ=EnvProxy(),
             getpid=_os.getpid, error=OSError, mkdir=lambda p, mode=0o777: H.fs.makedirs(p, mode))
         self.shutil = types.SimpleNamespace(move=d("move"))
